@@ -31,9 +31,9 @@ volatile uint64_t now;
 void thread_interrupt(thread* th, int error_number)
 {
     intr_total++;
-    bool found = false;
-    for (int i = 0; i < NTH; i++) if (th == th_ptr(i)) { intr_cnt[i]++; intr_err[i] = error_number; found = true; }
-    if (!found) intr_unknown = 1;
+    if (!th) { intr_unknown = 1; return; }       // every non-null data pointer of the harness is an element of TH[]
+    long i = (partial_thread*)th - TH;
+    intr_cnt[i]++; intr_err[i] = error_number;
 }
 ResetHandle::ResetHandle() {}
 ResetHandle::~ResetHandle() {}
@@ -45,7 +45,7 @@ static KFd K[TABLE];
 static uint32_t delivered[TABLE];       // events reported for the descriptor by the epoll_wait calls of this step
 static uint8_t k_bad, k_waits, k_evfd_reads;
 // every symbolic choice of the step is drawn up front (fixed number of recorded inputs)
-struct Script { uint32_t rev[TABLE]; bool order, evfd_first, evfd_last, eintr; uint8_t run_engine, sleep_outcome; int sleep_errno; };
+struct Script { uint32_t rev[TABLE]; bool order, evfd, evfd_first, eintr; uint8_t run_engine, sleep_outcome; int sleep_errno; };
 static Script sc;
 
 extern "C" int epoll_ctl(int epfd, int op, int fd, struct epoll_event* ev)
@@ -78,14 +78,14 @@ static int k_report(struct epoll_event* evs, int n, int fd)
 }
 extern "C" int epoll_wait(int epfd, struct epoll_event* evs, int maxevents, int timeout)
 {
-    if (epfd != ENGINE_FD || maxevents < 4) k_bad = 1;
+    if (epfd != ENGINE_FD || maxevents < 3) k_bad = 1;
     if (sc.eintr && k_waits == 0) { k_waits++; errno = EINTR; return -1; }
     k_waits++;
     int n = 0;
-    if (sc.evfd_first) { evs[n].events = EPOLLIN; evs[n].data.u64 = EV_FD; n++; }
+    if (sc.evfd && sc.evfd_first) { evs[n].events = EPOLLIN; evs[n].data.u64 = EV_FD; n++; }      // the wake-up eventfd (cancel_wait)
     n = k_report(evs, n, sc.order ? 1 : 2);
     n = k_report(evs, n, sc.order ? 2 : 1);
-    if (sc.evfd_last) { evs[n].events = EPOLLIN; evs[n].data.u64 = EV_FD; n++; }
+    if (sc.evfd && !sc.evfd_first) { evs[n].events = EPOLLIN; evs[n].data.u64 = EV_FD; n++; }
     return n;
 }
 extern "C" int eventfd_read(int fd, eventfd_t* value) { if (fd != EV_FD) k_bad = 1; k_evfd_reads++; *value = 1; return 0; }
@@ -161,8 +161,8 @@ static void mk_fd(int fd, uint8_t st, uint32_t stale_mask, bool stale_armed, boo
     else { k.registered = true; k.armed = true; k.mask = (r ? (EPOLLIN | EPOLLRDHUP) : 0) | (w ? EPOLLOUT : 0) | EPOLLONESHOT; }
 }
 
-struct Pre { uint32_t interests; void* data[2]; KFd k; };
-static Pre pre[TABLE];
+// snapshot of the initial state (scalars and pointers in separate arrays: no struct copies next to pointer members)
+static uint32_t pre_interests[TABLE], pre_kmask[TABLE]; static void* pre_data[TABLE][2]; static bool pre_kreg[TABLE], pre_karmed[TABLE];
 
 // what must hold for a waiter that was registered for (fd, dir) before the step and is not the subject of the step
 static void check_bystander(int fd, int dir)
@@ -175,7 +175,7 @@ static void check_bystander(int fd, int dir)
         CHECK(!(e.interests & dirbit(dir)) && data_of(e, dir) == nullptr, "a fired one-shot interest is removed");
     } else {
         CHECK(intr_cnt[t] == 0, "a waiter is not woken by an event or timeout of another descriptor or direction");
-        CHECK((e.interests & dirbit(dir)) && data_of(e, dir) == pre[fd].data[dir], "an unrelated waiter stays registered");
+        CHECK((e.interests & dirbit(dir)) && data_of(e, dir) == pre_data[fd][dir], "an unrelated waiter stays registered");
         CHECK(K[fd].registered && K[fd].armed && (K[fd].mask & kbits(dir)) == kbits(dir), "the kernel stays armed for an unrelated waiter (its event cannot be lost)");
     }
 }
@@ -188,7 +188,7 @@ void harness_epoll()
     uint32_t sm1 = nondet_u32(), sm2 = nondet_u32();
     bool sa1 = nondet_bool(), sa2 = nondet_bool(), sr1 = nondet_bool(), sw1 = nondet_bool(), sr2 = nondet_bool(), sw2 = nondet_bool();
     sc.rev[1] = nondet_u32(); sc.rev[2] = nondet_u32();
-    sc.order = nondet_bool(); sc.evfd_first = nondet_bool(); sc.evfd_last = nondet_bool(); sc.eintr = nondet_bool();
+    sc.order = nondet_bool(); sc.evfd = nondet_bool(); sc.evfd_first = nondet_bool(); sc.eintr = nondet_bool();
     sc.run_engine = nondet_bool(); sc.sleep_outcome = nondet_bool(); sc.sleep_errno = nondet_u8();
     uint8_t f8 = nondet_u8(), d8 = nondet_u8();
     ASSUME(sc.sleep_errno != EOK);
@@ -204,7 +204,10 @@ void harness_epoll()
     mk_fd(1, st1, sm1, sa1, sr1, sw1);
     mk_fd(2, st2, sm2, sa2, sr2, sw2);
     ASSUME(inv(1) && inv(2));        // holds by construction; stated so that pre- and post-condition are the same predicate
-    for (int i = 1; i <= 2; i++) { pre[i].interests = table[i].interests; pre[i].data[0] = table[i].reader_data; pre[i].data[1] = table[i].writer_data; pre[i].k = K[i]; }
+    for (int i = 1; i <= 2; i++) {
+        pre_interests[i] = table[i].interests; pre_data[i][0] = table[i].reader_data; pre_data[i][1] = table[i].writer_data;
+        pre_kreg[i] = K[i].registered; pre_karmed[i] = K[i].armed; pre_kmask[i] = K[i].mask;
+    }
     errno = 0;
 
 #if OP == 0
@@ -213,27 +216,27 @@ void harness_epoll()
     CHECK(n == intr_total, "wait_and_fire_events returns the number of waiters it woke");
     for (int fd = 1; fd <= 2; fd++)
         for (int dir = 0; dir < 2; dir++)
-            if (pre[fd].interests & dirbit(dir)) check_bystander(fd, dir);
+            if (pre_interests[fd] & dirbit(dir)) check_bystander(fd, dir);
     CHECK(intr_cnt[T_X] == 0 && intr_cnt[T_S] == 0 && !intr_unknown, "only registered waiters are woken (never a stale or foreign pointer)");
     CHECK(eng.v._events_remain == 0, "the whole batch is consumed");
-    CHECK(k_evfd_reads == (sc.evfd_first ? 1 : 0) + (sc.evfd_last ? 1 : 0), "wake-up eventfd drained once per reported event");
+    CHECK(k_evfd_reads == (sc.evfd ? 1 : 0), "wake-up eventfd drained when it is reported");
     if (n == 2 && delivered[1] && delivered[2]) WITNESS("two descriptors fired in one batch");
-    if ((pre[1].interests & 3) == 3 && intr_cnt[widx(1, 0)] == 1 && intr_cnt[widx(1, 1)] == 0) WITNESS("reader fired, writer of the same descriptor re-armed");
-    if ((pre[1].interests & 3) == 3 && intr_cnt[widx(1, 0)] == 1 && intr_cnt[widx(1, 1)] == 1) WITNESS("error/hang-up wakes both directions");
-    if (pre[2].interests == ONE_SHOT && delivered[2]) WITNESS("stale kernel registration reports an event nobody waits for");
+    if ((pre_interests[1] & 3) == 3 && intr_cnt[widx(1, 0)] == 1 && intr_cnt[widx(1, 1)] == 0) WITNESS("reader fired, writer of the same descriptor re-armed");
+    if ((pre_interests[1] & 3) == 3 && intr_cnt[widx(1, 0)] == 1 && intr_cnt[widx(1, 1)] == 1) WITNESS("error/hang-up wakes both directions");
+    if (pre_interests[2] == ONE_SHOT && delivered[2]) WITNESS("stale kernel registration reports an event nobody waits for");
     if (n == 0 && sc.eintr) WITNESS("epoll_wait interrupted once");
 #elif OP == 1
     // ---- thread X waits for (f, d) ----
     Timeout tmo; tmo.expiration(nondet_u64());
-    const bool conflict = (pre[f].interests & dirbit(d)) != 0;          // somebody already waits for that direction of f
+    const bool conflict = (pre_interests[f] & dirbit(d)) != 0;          // somebody already waits for that direction of f
     int ret = eng.v.wait_for_fd(f, dirbit(d), tmo);
     const int e = errno;
     const bool fired_x = intr_cnt[T_X] != 0;
     if (conflict) {
         CHECK(ret == -1 && e == EALREADY, "a second waiter for the same descriptor and direction is refused with EALREADY");
         CHECK(usleep_calls == 0 && intr_total == 0, "a refused wait neither sleeps nor wakes anybody");
-        CHECK(table[f].interests == pre[f].interests && table[f].reader_data == pre[f].data[0] && table[f].writer_data == pre[f].data[1], "a refused wait leaves the first waiter registered");
-        CHECK(K[f].registered == pre[f].k.registered && K[f].armed == pre[f].k.armed && K[f].mask == pre[f].k.mask, "a refused wait leaves the kernel registration alone");
+        CHECK(table[f].interests == pre_interests[f] && table[f].reader_data == pre_data[f][0] && table[f].writer_data == pre_data[f][1], "a refused wait leaves the first waiter registered");
+        CHECK(K[f].registered == pre_kreg[f] && K[f].armed == pre_karmed[f] && K[f].mask == pre_kmask[f], "a refused wait leaves the kernel registration alone");
         WITNESS("conflicting waiter");
     } else {
         CHECK(usleep_calls == 1, "the waiter sleeps exactly once");
@@ -249,14 +252,14 @@ void harness_epoll()
         }
         CHECK(!(table[f].interests & dirbit(d)) && data_of(table[f], d) == nullptr, "the caller's interest is removed when the wait ends (event, timeout or interrupt)");
         // the other direction of f and both directions of the other descriptor
-        if (pre[f].interests & dirbit(1 - d)) check_bystander(f, 1 - d);
-        for (int dir = 0; dir < 2; dir++) if (pre[other].interests & dirbit(dir)) check_bystander(other, dir);
+        if (pre_interests[f] & dirbit(1 - d)) check_bystander(f, 1 - d);
+        for (int dir = 0; dir < 2; dir++) if (pre_interests[other] & dirbit(dir)) check_bystander(other, dir);
         CHECK(intr_cnt[T_S] == 0 && !intr_unknown, "only registered waiters are woken (never a stale or foreign pointer)");
-        if (ret == 0 && (pre[f].interests & dirbit(1 - d)) && intr_cnt[widx(f, 1 - d)] == 0) WITNESS("own event fired, other direction of the same descriptor still armed");
-        if (ret == -1 && e == ETIMEDOUT && (pre[f].interests & dirbit(1 - d))) WITNESS("timeout while the other direction of the same descriptor is awaited");
-        if (ret == -1 && e == ETIMEDOUT && pre[f].interests == 0) WITNESS("timeout on a fresh descriptor");
+        if (ret == 0 && (pre_interests[f] & dirbit(1 - d)) && intr_cnt[widx(f, 1 - d)] == 0) WITNESS("own event fired, other direction of the same descriptor still armed");
+        if (ret == -1 && e == ETIMEDOUT && (pre_interests[f] & dirbit(1 - d))) WITNESS("timeout while the other direction of the same descriptor is awaited");
+        if (ret == -1 && e == ETIMEDOUT && pre_interests[f] == 0) WITNESS("timeout on a fresh descriptor");
         if (ret == -1 && e != ETIMEDOUT && intr_cnt[widx(other, 0)] == 1) WITNESS("interrupted while another descriptor's reader is fired");
-        if (ret == 0 && pre[f].interests == ONE_SHOT) WITNESS("re-programmed a left-over kernel registration");
+        if (ret == 0 && pre_interests[f] == ONE_SHOT) WITNESS("re-programmed a left-over kernel registration");
     }
 #elif OP == 2
     // ---- the descriptor is withdrawn from the engine (wait_for_fd(fd, 0, ...), as done before close()) ----
@@ -264,9 +267,9 @@ void harness_epoll()
     CHECK(ret == 0, "withdrawing a descriptor succeeds");
     CHECK((table[f].interests & (EVENT_RWE | ONE_SHOT)) == 0 && !K[f].registered, "a withdrawn descriptor has no interests and no kernel registration");
     CHECK(usleep_calls == 0 && intr_total == 0, "withdrawing neither sleeps nor wakes anybody");
-    for (int dir = 0; dir < 2; dir++) if (pre[other].interests & dirbit(dir)) check_bystander(other, dir);
-    if (pre[f].interests == ONE_SHOT && pre[other].interests & 3) WITNESS("withdrew a descriptor with a left-over registration");
-    if (pre[f].interests == 0) WITNESS("withdrew an unknown descriptor");
+    for (int dir = 0; dir < 2; dir++) if (pre_interests[other] & dirbit(dir)) check_bystander(other, dir);
+    if (pre_interests[f] == ONE_SHOT && pre_interests[other] & 3) WITNESS("withdrew a descriptor with a left-over registration");
+    if (pre_interests[f] == 0) WITNESS("withdrew an unknown descriptor");
 #endif
     CHECK(inv(1) && inv(2), "engine table and kernel registrations are consistent after the step (invariant is inductive)");
     CHECK(!k_bad, "epoll is called with the engine's descriptor and valid arguments");
